@@ -123,20 +123,49 @@ def run_translator(pid):
         res["failures"].append({"obligation": "Generated.v compiles", "detail": out[-1500:]})
         res["obligations"] = 1
         return res
-    # one file per obligation group so that one failure does not hide the others
+    # one file per obligation group so that one failure does not hide the others.  Compiled files of
+    # earlier runs are removed first (they may have been built against another Generated.v), and a
+    # file that imports another Tie file is compiled after it, whatever their names.
+    for old in glob.glob(os.path.join(gdir, "Tie_*")):
+        os.remove(old)
     tie_src = os.path.join(COQ, "gentie")
+    srcs, deps, wanted = {}, {}, []
     for f in sorted(glob.glob(os.path.join(tie_src, "Tie_*.v"))):
-        name = os.path.basename(f)
-        props = re.findall(r"\(\*\s*props:\s*([A-Z0-9 ,]+)\*\)", open(f).read())
+        name = os.path.basename(f)[:-2]
+        text = open(f).read()
+        srcs[name] = text
+        deps[name] = [d for d in re.findall(r"\b(Tie_\w+)\b", " ".join(re.findall(r"From\s+IceGen\s+Require\s+Import([^.]*)\.", text))) if d != name]
+        props = re.findall(r"\(\*\s*props:\s*([A-Z0-9 ,]+)\*\)", text)
         plist = [p.strip() for p in (props[0].split(",") if props else [])]
-        if pid not in plist and "ALL" not in plist:
-            continue
-        shutil.copy(f, os.path.join(gdir, name))
-        nobl = len(re.findall(r"^\s*(?:Theorem|Lemma|Example)\s", open(f).read(), re.M))
+        if pid in plist or "ALL" in plist:
+            wanted.append(name)
+    order, seen = [], set()
+
+    def visit(n):
+        if n in seen or n not in srcs:
+            return
+        seen.add(n)
+        for d in deps[n]:
+            visit(d)
+        order.append(n)
+    for n in wanted:
+        visit(n)
+    broken = set()
+    for name in order:
+        text = srcs[name]
+        with open(os.path.join(gdir, name + ".v"), "w") as fh:
+            fh.write(text)
+        counted = name in wanted      # a dependency outside the property's own list is compiled, not counted
+        nobl = len(re.findall(r"^\s*(?:Theorem|Lemma|Example)\s", text, re.M)) if counted else 0
         res["obligations"] += nobl
-        rc, out = sh(["coqc"] + qflags + [name], cwd=gdir, timeout=900)
+        if any(d in broken for d in deps[name]):
+            broken.add(name)
+            res["failures"].append({"obligation": name + ".v", "detail": "not compiled: it imports " + ", ".join(d for d in deps[name] if d in broken) + ", which no longer checks"})
+            continue
+        rc, out = sh(["coqc"] + qflags + [name + ".v"], cwd=gdir, timeout=900)
         if rc != 0:
-            res["failures"].append({"obligation": name, "detail": out[-1500:] + ("\n" + "\n".join(untr) if untr else "")})
+            broken.add(name)
+            res["failures"].append({"obligation": name + ".v", "detail": out[-1500:] + ("\n" + "\n".join(untr) if untr else "")})
         else:
             res["discharged"] += nobl
     return res
